@@ -11,7 +11,7 @@
 (*   EnvelopeWellFormed (C04)    size field, 0xCE, type octet              *)
 (*   PeekAgrees (C20)            peeked size + 8 = length, same channel    *)
 (***************************************************************************)
-EXTENDS Frames, TLC
+EXTENDS Frames, TLC, Json
 
 VARIABLES f, ch
 fvars == << f, ch >>
@@ -61,6 +61,8 @@ Init == f \in AllFrames /\ ch \in Channels
 Next == UNCHANGED fvars
 Spec == Init /\ [][Next]_fvars
 
+\* S2C: every small frame once (generator config, -workers 1)
+EmitFrame == ch # 1 \/ PrintT(<< "S2C", ToJson([f |-> f]) >>)
 M == Marshal(FALSE, f, ch)
 IsMethod == f.cls \in MethodNames
 FixedKind == f.cls \in {"Heartbeat", "ProtocolHeader"}
